@@ -16,7 +16,7 @@ RULE = ("expressions from the full-grammar generator (depth <= 3/4) into which p
         "own re-rooting on decoded terms; identity (==) when no path is rooted at the variable; input not "
         "mutated. Non-trivial: >= 1 path rooted at the variable below the top and >= 1 other occurrence of "
         "the name that must stay; distinct by (tree, variable)."
-        " Every case is followed by its look-alike twin (field-less operator tokens swapped, integer literals turned into strings) in the same process.")
+        " Long-lived process: 130-4000 (thorough: 60000) rounds in which three long-lived trees are made relative again while one-off trees pass through, each result compared with the reference for that very tree. Every case is followed by its look-alike twin (field-less operator tokens swapped, integer literals turned into strings) in the same process.")
 ASSUMPTIONS = ["nested lambdas binding the same name as the stripped variable are outside the quantifier"]
 
 VARS = ["x", "v", "it", "owner", "a"]
@@ -146,11 +146,59 @@ def check_with_twin(case):
     return None
 
 
+def check_history(n, seed):
+    """A long-lived process: a few long-lived trees are made relative again and again while n one-off
+    trees (parsed, made relative once, dropped) pass through; every result is compared with the
+    harness's own re-rooting of that very tree, and the input must come back untouched."""
+    from odata_query import ast
+    from odata_query.utils import expression_relative_to_identifier
+    x = ast.Identifier("x")
+
+    def one_off(i):
+        k = (i + seed) % 5
+        return [("bool", "and", ("cmp", "eq", ("path", ("path", ident("x"), "owner"), "f%d" % i), ("lit", "int", str(i))),
+                 ("call", "startswith", (), (("path", ident("x"), "tag"), ("lit", "str", "t%d" % i)))),
+                ("cmp", "gt", ("path", ident("x"), "h%d" % i), ("lit", "int", "0")),
+                ("cmp", "in", ("path", ident("y"), "x"), ("list", (("path", ident("x"), "a%d" % i), ("lit", "int", str(i))))),
+                ("cmp", "eq", ident("x"), ("path", ("path", ident("other"), "x"), "n%d" % i)),
+                ("lambda", ("path", ident("x"), "items"), "any", "w", ("cmp", "eq", ("path", ident("w"), "k"), ("path", ident("x"), "k%d" % i)))][k]
+
+    hot_terms = [("cmp", "gt", ("path", ident("x"), "h%d" % k), ("lit", "int", "0")) for k in range(3)]
+    hot = [(lib.parse(printer.render(t)), t) for t in hot_terms]
+    for i in range(n):
+        t = one_off(i)
+        probes = [(a, ht, "long-lived tree #%d" % j) for j, (a, ht) in enumerate(hot)] + [(lib.parse(printer.render(t)), t, "one-off tree")]
+        for a, term, what in probes:
+            for var in ("x", "y"):
+                try:
+                    got = decode(expression_relative_to_identifier(ast.Identifier(var), a))
+                except Exception as e:
+                    return ("history:exception:" + lib.exc_bucket(e), "round %d of %d, %s %r var=%s: %s" % (i, n, what, printer.render(term), var, e))
+                exp = treeref.reroot(term, var)
+                if got != exp:
+                    return ("history:reroot-differs", "round %d of %d, %s %r var=%s: expected %r got %r" % (
+                        i, n, what, printer.render(term), var, exp, got))
+            if decode(a) != term:
+                return ("history:input-mutated", "round %d of %d, %s %r" % (i, n, what, printer.render(term)))
+        del probes
+    return None
+
+
 def replay(case):
+    if "history" in case:
+        return check_history(case["history"], case["seed"])
     return check_with_twin(case)
 
 
 def shrink(case, bucket):
+    if "history" in case:
+        n = case["history"]
+        while n > 8:          # the shortest history that still fails the same way
+            r = check_history(n // 2, case["seed"])
+            if not (r and r[0] == bucket):
+                break
+            n //= 2
+        return dict(case, history=n)
     t = from_json(case["term"])
 
     def still(c):
@@ -182,11 +230,23 @@ def nontrivial(case):
 def plan(tier, seed, scale):
     K = 16
     total = int((10000 if tier == "quick" else 200000) * scale)
-    return [{"name": "rand-%d" % i, "n": max(total // K, 10), "shard": i,
-             "depth": 3 if tier == "quick" else 4} for i in range(K)]
+    tasks = [{"name": "rand-%d" % i, "n": max(total // K, 10), "shard": i,
+              "depth": 3 if tier == "quick" else 4} for i in range(K)]
+    for n in ([130, 300, 600, 1500, 4000] if tier == "quick" else [130, 300, 600, 1500, 4000, 20000, 60000]):
+        tasks.append({"name": "history-%d" % n, "history": n})
+    return tasks
 
 
 def run_task(task, seed, acc):
+    if "history" in task:
+        case = {"history": task["history"], "seed": seed}
+        r = check_history(task["history"], seed)
+        acc.case(key=digest(case), nontrivial=True, sample=case)
+        acc.cls("history_rounds", task["history"])
+        if r:
+            acc.fail(r[0], case, r[1])
+        return
+
     def one(case):
         r = check_with_twin(case)
         nt = nontrivial(case)
